@@ -108,7 +108,7 @@ prop("C12",
           "399,400,401,599,600,601,1000,4096} (+64507/65535 in thorough); multi-message sessions with tampered messages in "
           "the middle; every single-bit flip of ct||tag and AD for |P|,|A| in a small grid (exhaustive over bit positions) and "
           "sampled positions for long messages; every key byte flipped (all key lengths <=64 quick / <=199 thorough); six "
-          "aliasing patterns with canaries; raw Kra/Vatte with split inputs/outputs and bit-length final pieces. Non-trivial "
+          "aliasing patterns with canaries; raw Kra/Vatte with split inputs/outputs and bit-length final pieces. Every fourth refused Open is made behind data the caller already holds in dst (with room to append in place); that data must be unchanged afterwards. Non-trivial "
           "= a call (or bit position / key byte) whose real outcome was compared; distinct by grid cell, bit index or (batch, index).",
      level_text="Differential monitoring of Kravatte-SANSE against an independent specification-level reference (anchored on every "
                 "run to crypto/sha3 and to the repository's three XKCP transcripts), plus exhaustive single-bit tamper rejection "
@@ -128,7 +128,6 @@ prop("C18",
           "with every field at boundary lengths and all enum values (decode(encode(v)) == v and nothing left over); mutated "
           "valid encodings kept when the decoder accepts (decode(encode(decode(b))) == decode(b)); unrepresentable values "
           "(encoder must refuse, else output||sentinel must decode to the value and leave the sentinel). "
-          "Every fourth refused Open is made behind data the caller already holds in dst (with room to append in place); that data must be unchanged afterwards. "
           "PEM bundles of one to four certificates compared with the same certificates decoded one by one. "
           "Non-trivial = a value "
           "that was encoded and decoded, or a byte string the decoder accepted; distinct by (codec, batch, index) or by bytes.",
